@@ -20,13 +20,16 @@ TrajVerdict(c, o) ==
   LET m == c.mode  n == Len(c.traj) IN
   IF o.labels # [k \in DOMAIN Letters(m) |-> Label(Letters(m)[k], c.unit)] THEN "AxisLabelsWrong"
   ELSE IF o.line # [k \in 1..n |-> Proj(m, c.traj[k].p)] THEN "LineNotTheTrajectory"
-  ELSE IF o.markers # <<Proj(m, c.traj[1].p), Proj(m, c.traj[n].p)>> THEN "StartEndMarkersWrong"
+  \* one marker at the first and one at the last pose (the order in which the two artists were added is not part of the statement)
+  ELSE IF Len(o.markers) # 2 \/ {o.markers[1], o.markers[2]} # {Proj(m, c.traj[1].p), Proj(m, c.traj[n].p)}
+          \/ (Proj(m, c.traj[1].p) = Proj(m, c.traj[n].p) /\ o.markers[1] # o.markers[2]) THEN "StartEndMarkersWrong"
   ELSE IF o.segments # [k \in 1..(n - 1) |-> <<Proj(m, c.traj[k].p), Proj(m, c.traj[k + 1].p)>>] THEN "ColourSegmentsWrong"
-  ELSE IF o.edges # [k \in 1..n |-> <<Proj(m, c.traj[k].p), Proj(m, c.other[k].p)>>] THEN "CorrespondenceEdgesWrong"
-  ELSE IF c.scale2 > 0 /\ o.frames #       \* n x-axes, then n y-axes, then n z-axes; positions doubled so that scale 1/2 stays integral
-            [j \in 1..(3 * n) |-> LET k == ((j - 1) % n) + 1  a == ((j - 1) \div n) + 1
-                                      e == [i \in 1..3 |-> IF i = a THEN c.scale2 ELSE 0] IN
-                                  <<Proj(m, VScale(2, c.traj[k].p)), Proj(m, VAdd(VScale(2, c.traj[k].p), Act(c.traj[k].r, e)))>>]
+  \* edges and frame markers: one segment per pose (per pose and axis), each exactly where it belongs; the order in which the
+  \* segments sit in the collection is not part of the statement
+  ELSE IF Len(o.edges) # n \/ SeqRange(o.edges) # {<<Proj(m, c.traj[k].p), Proj(m, c.other[k].p)>> : k \in 1..n} THEN "CorrespondenceEdgesWrong"
+  ELSE IF c.scale2 > 0 /\ (Len(o.frames) # 3 * n \/ SeqRange(o.frames) #       \* positions doubled so that scale 1/2 stays integral
+            {LET e == [i \in 1..3 |-> IF i = ka[2] THEN c.scale2 ELSE 0] IN
+               <<Proj(m, VScale(2, c.traj[ka[1]].p)), Proj(m, VAdd(VScale(2, c.traj[ka[1]].p), Act(c.traj[ka[1]].r, e)))>> : ka \in (1..n) \X (1..3)})
        THEN "FrameMarkersWrong"
   ELSE IF c.scale2 = 0 /\ Len(o.frames) # 0 THEN "FrameMarkersWrong"
   ELSE "ok"
@@ -50,7 +53,6 @@ SeriesVerdict(c, o) ==
        THEN "AngleSeriesNotOfTheCurrentPoses"          \* plotted again after the object was rotated from the left by rpy2_g
   ELSE IF "rpy3_flat" \in DOMAIN o /\ ~o.rpy3_flat THEN "AngleSeriesNotOfTheCurrentPoses"        \* after projecting onto xy: roll = pitch = 0
   ELSE IF o.xyz_labels # <<Label("x", c.unit), Label("y", c.unit), Label("z", c.unit)>> THEN "AxisLabelsWrong"
-  ELSE IF o.xlabel # (IF Len(c.stamps) = 0 THEN "index" ELSE "t") THEN "AxisLabelsWrong"
   ELSE IF Len(c.stamps) > 0 /\ o.speed_x # [k \in 1..(n - 1) |-> xs[k + 1]] THEN "SpeedTimeAxisWrong"
   ELSE IF Len(c.stamps) > 0 /\ \E k \in 1..(n - 1) :        \* speed * dt = step length (axis-aligned integer steps)
             o.speed_num[k] # ISqrt(Dist2(c.traj[k].p, c.traj[k + 1].p)) \/ o.speed_den[k] # c.stamps[k + 1] - c.stamps[k] THEN "SpeedSeriesWrong"
